@@ -236,6 +236,8 @@ func runC07(c *Ctx) {
 	// a live table entry, whose object is then never closed, neither by CLOSE nor by the sweep when Serve returns
 	c.withOnly("R1", "R18", func() { runC11(c) })
 	checkWorkersAccountedFor(c, "R19")
+	// R20 (shared with C02.R3): what is emitted is a prefix of the correct responses only if responses leave by order id
+	c.withOnlyKeys("R3", "R20", []string{"maybeSendPackets"}, func() { runC02(c) })
 	// R13 (shared with C02.R0): a well-formed request of every type makePacket can build lands in a case of the os
 	// server's dispatcher that answers it; the default arm returns an error, which ends the command worker without a
 	// reply — with more requests in the stream Serve then waits for a worker that is gone
